@@ -68,10 +68,15 @@ def stream_ref(key):
 
 
 def stream_arg(key, k):
-    """the spelling handed to add_to_stream for the k-th event (all of them denote the same stream)"""
+    """the spelling handed to add_to_stream for the k-th event: all of them denote the same stream
+    (normalize_stream_iri: trim, strip all leading '<' / trailing '>', strip one leading ':')"""
     if ":" in key or "/" in key:
-        return key if k % 2 == 0 else "<%s>" % key
-    return key if k % 2 == 0 else ":" + key
+        return [key, "<%s>" % key, "  %s \n" % key, "<<%s>>" % key, "\t<%s> " % key][k % 5]
+    return [key, ":" + key, " :%s\t" % key, "<%s>" % key, "<:%s>" % key][k % 5]
+
+
+def coq_str(s):
+    return "[" + "; ".join(str(ord(ch)) for ch in s) + "]"
 
 
 def block_order(c):
@@ -426,8 +431,12 @@ def evaluate(ctx, binpath, cases, stream, nseeds, witness_ids=()):
             e_lock = "model_mt %s [%s]" % (cfg, "; ".join(macts))
         else:
             e_lock = "model_mt %s []" % cfg
-        meta.append((len(exprs), drain_at, mt_rows))
-        exprs.append("(%s, %s, %s)" % (e_st, e_mt, e_lock))
+        decl_strs = [stream_ref(w["stream"]) for w in c["windows"]]
+        spellings = sorted({(e["stream_arg"], e["stream"]) for e in dcs[len(meta)]["evs"]})
+        e_route = "route_table [%s] [%s]" % ("; ".join(coq_str(d) for d in decl_strs), "; ".join(coq_str(sp) for sp, _ in spellings))
+        route_expected = [[key == w["stream"] for _, key in spellings] for w in c["windows"]]
+        meta.append((len(exprs), drain_at, mt_rows, route_expected))
+        exprs.append("(%s, %s, %s, %s)" % (e_st, e_mt, e_lock, e_route))
     model = run_model_robust(ctx, "Rsp11", ["KV.Rsp11.Model", "KV.Rsp11.Spec", "KV.Rsp11.Run"], exprs)
     st = {"cases": len(cases), "st_solutions": 0, "st_emitting_calls": 0, "known_class_st": 0, "known_class_mt_runs": 0, "mt_runs": 0,
           "mt_solutions": 0, "lockstep_runs": 0, "impl_model_mismatches": 0, "spec_violations": 0, "leaking_solutions_in_known_class": 0}
@@ -448,7 +457,10 @@ def evaluate(ctx, binpath, cases, stream, nseeds, witness_ids=()):
         if isinstance(mo, tuple) and mo and mo[0] == "ERROR":
             ctx.broken("correspondence", stream, "model evaluation failed: %s" % (mo[1],), c)
             continue
-        m_emis, known, verdicts, mt_res, (lock_emis, lock_known) = mo   # Coq prints left-nested pairs flat
+        m_emis, known, verdicts, mt_res, (lock_emis, lock_known), route_tbl = mo   # Coq prints left-nested pairs flat
+        if route_tbl != me[3]:
+            ctx.broken("correspondence", stream, "the model's stream routing (Routing.routes on the spellings of this case) differs from "
+                       "routing by canonical stream IRI, which the probe windows use", {"case": c, "model": route_tbl, "expected": me[3]})
         drain_at = me[1]
         detail = None
         # ---- single thread: Spec oracle on the implementation's solutions, then model correspondence
